@@ -1,12 +1,14 @@
 -- REGENERATED on every run by vlib/checks/c12.py from the working tree under test. Do not edit.
 namespace OllamaVerif.Generated.C12
-/-- func Serve (server/routes.go): (call, inside a go statement / function literal / defer, conditions of the
-enclosing ifs) for every call of the start-up store repair and of the call that starts serving, in source order -/
-def serveCalls : List (String × Bool × String) := [
-  ("fixBlobs", false, ""),
-  ("envconfig.NoPrune", false, ""),
-  ("Manifests", false, "if !envconfig.NoPrune()"),
-  ("PruneLayers", false, "if !envconfig.NoPrune() && else-of _, err := Manifests(false); err != nil"),
-  ("PruneDirectory", false, "if !envconfig.NoPrune() && else-of _, err := Manifests(false); err != nil"),
-  ("srvr.Serve", false, "")]
+/-- func Serve (server/routes.go), helpers it calls walked as if inlined: (call, inside a go statement / function
+literal / defer, guards = the conditions under which the call is reached, outermost first, each normalised to
+`noprune-off:` / `noprune-on:` / `cond:` + its source text) for every call of the start-up store repair and of the
+call that starts serving, in source order -/
+def serveCalls : List (String × Bool × List String) := [
+  ("fixBlobs", false, []),
+  ("envconfig.NoPrune", false, []),
+  ("Manifests", false, ["noprune-off: if !envconfig.NoPrune()"]),
+  ("PruneLayers", false, ["noprune-off: if !envconfig.NoPrune()", "cond: else-of _, err := Manifests(false); err != nil"]),
+  ("PruneDirectory", false, ["noprune-off: if !envconfig.NoPrune()", "cond: else-of _, err := Manifests(false); err != nil"]),
+  ("srvr.Serve", false, [])]
 end OllamaVerif.Generated.C12
